@@ -215,6 +215,8 @@ def l1_reentrancy(P, E, H, UR=None, c01_holds=True):
     acq_index = defaultdict(list)      # identity -> [(body, acq bb, mode)]
     total = 0
     for b in P.bodies.values():
+        if b.id in P.absorbed:
+            continue      # a helper's acquisitions are indexed where it is inlined (with the caller's cell)
         acqs, held, _ = b.guards()
         for bb, a in acqs.items():
             total += 1
